@@ -816,11 +816,17 @@ func (ch *Channel) canSend() bool {
 // Call before calling nextPacketMsg()
 // Goroutine-safe
 func (ch *Channel) isSendPending() bool {
-	if len(ch.sending) == 0 {
+	// ch.sending == nil means "no message in progress" (nextPacketMsg resets it to nil
+	// after the EOF packet). An empty message is still a message: it stays pending until
+	// its (empty) EOF packet has been sent.
+	if ch.sending == nil {
 		if len(ch.sendQueue) == 0 {
 			return false
 		}
 		ch.sending = <-ch.sendQueue
+		if ch.sending == nil {
+			ch.sending = []byte{}
+		}
 	}
 	return true
 }
